@@ -879,7 +879,7 @@ fn main() {
     let keep = corpus().len();
     let mut rest: Vec<Vec<u8>> = gp.split_off(keep);
     r.shuffle(&mut rest);
-    rest.truncate(args.budget(12, 3000) as usize);
+    rest.truncate(args.budget(12, 1200) as usize);
     let mut lp: Vec<Vec<u8>> = gp.into_iter().filter(|p| gitcli::pathspec_safe(p)).collect();
     r.shuffle(&mut lp);
     lp.truncate(args.budget(12, 280) as usize);
